@@ -133,25 +133,36 @@ def norm_uw(ch, m, l):
             "uriFixPercentEncodingEngine%s.*" % ch: l + 1, "uriMakeOwnerEngine%s.*" % ch: m + 2,
             "uriPreventLeakage%s.*" % ch: m + 2, "uriNormalizeSyntaxEngine%s.*" % ch: m + 2,
             "uriRemoveDotSegmentsEx%s.0" % ch: l + 1, "uriRemoveDotSegmentsEx%s.1" % ch: m + 1,
-            "uriFreeUriMembersMm%s.*" % ch: m + 3, "uriNormalizeSyntaxExMm%s.*" % ch: 2, "memcpy.*": 170}
+            "uriFreeUriMembersMm%s.*" % ch: m + 3, "uriNormalizeSyntaxExMm%s.*" % ch: 2, "memcpy.*": l + 1}
 
 
-MASKMODE = {1: "nonpath", 2: "pathonly", 3: "full"}
+NORM_SPLITS = [  # name, V_COMPS, VM, VL, VT
+    ("scheme-query-fragment", 1 | 16 | 32, 1, 3, 4),
+    ("authority", 2 | 4 | 64, 1, 3, 4),
+    ("path", 1 | 8, 2, 3, 4),
+    ("all-short", 127, 1, 1, 3),
+]
+NORM_KF = ["C08-host-percent-encoding-lowercased", "C08-network-path-reference-treated-as-relative", "C09-relative-path-collapses",
+           "C14-normalize-borrowed-path-leak"]
 for ch in ("A", "W"):
-    for owned in (0, 1):
-        for mm in (1, 2, 3):
-            ob(id="NormalizeSyntax.%s.%s.%s.H" % ("owned" if owned else "borrowed", MASKMODE[mm], ch),
+    for (nm, comps, vm, vl, vt) in NORM_SPLITS:
+        ob(id="NormalizeMaskRequired.%s.%s.H" % (nm, ch), props=["C08", "C12", "C19", "C20"], route="H", harness="c08_normalize.c", char=ch,
+           group="uriNormalizeSyntaxMaskRequiredEx: reported mask is sufficient (bit clear => component already normal), read-only",
+           defines={"VM": vm, "VL": vl, "VT": vt, "V_OWNED": 0, "VSTUB_MEMCPY": 3, "V_PART": 1, "V_COMPS": comps},
+           unwindset=norm_uw(ch, vm, vl), level="B",
+           bounds="components admitted: %s; <=%d segments, <=%d characters per component" % (nm, vm, vl),
+           functions=["uriNormalizeSyntaxMaskRequiredEx" + ch, "uriNormalizeSyntaxEngine" + ch],
+           inlined=["uriContainsUppercaseLetters" + ch, "uriContainsUglyPercentEncoding" + ch, "uriHexdigToInt" + ch, "uriIsUnreserved"],
+           stubs=["memcpy (one whole Uri structure, structure assignment)"], kf=NORM_KF, timeout_s=by_tier(900, 3600), mem_gb=8)
+        for owned in (0, 1):
+            ob(id="NormalizeSyntax.%s.%s.%s.H" % ("owned" if owned else "borrowed", nm, ch),
                props=["C08", "C09", "C07", "C12", "C13", "C14", "C19", "C20"], route="H", harness="c08_normalize.c", char=ch,
-               group="uriNormalizeSyntaxExMm / MaskRequiredEx whole operation against the RFC 3986 6.2.2 normal form, ownership, ledger, fault injection",
-               defines=by_tier({"VM": 2, "VL": 3, "VT": 4, "V_OWNED": owned, "VSTUB_MEMCPY": 1, "V_MASKMODE": mm},
-                               {"VM": 3, "VL": 3, "VT": 5, "V_OWNED": owned, "VSTUB_MEMCPY": 1, "V_MASKMODE": mm}),
-               unwindset=by_tier(norm_uw(ch, 2, 3), norm_uw(ch, 3, 3)),
-               level="B", bounds=by_tier("<=2 segments, <=3 characters per component, masks: %s, every allocation request may fail" % MASKMODE[mm],
-                                         "<=3 segments, <=3 characters per component, masks: %s, every allocation request may fail" % MASKMODE[mm]),
+               group="uriNormalizeSyntaxExMm whole operation against the RFC 3986 6.2.2 normal form, ownership, ledger, fault injection",
+               defines={"VM": vm, "VL": vl, "VT": vt, "V_OWNED": owned, "VSTUB_MEMCPY": 1, "V_PART": 2, "V_COMPS": comps},
+               unwindset=norm_uw(ch, vm, vl),
+               level="B", bounds="components admitted: %s; <=%d segments, <=%d characters per component, symbolic mask (all 64), every allocation request may fail" % (nm, vm, vl),
                functions=[f % ch for f in NORM_FUNCS], inlined=[f % ch for f in NORM_FUNCS[2:]],
-               stubs=["memory manager (ledger stub)", "memcpy (element loop)"],
-               kf=["C08-host-percent-encoding-lowercased", "C08-network-path-reference-treated-as-relative", "C09-relative-path-collapses",
-                   "C14-normalize-borrowed-path-leak"],
+               stubs=["memory manager (ledger stub)", "memcpy (element loop)"], kf=NORM_KF,
                timeout_s=by_tier(1500, 7200), mem_gb=by_tier(12, 24))
 
 # ----------------------------------------------------------------------------------------------------------------
@@ -174,5 +185,22 @@ for ch in ("A", "W"):
                                  "source and base: <=3 segments each, <=2 characters per component; every allocation request may fail"),
        functions=[f % ch for f in SHORTEN_FUNCS], inlined=[f % ch for f in SHORTEN_FUNCS[1:]],
        stubs=["memory manager (ledger stub)"],
-       kf=["C10-authority-compared-by-host-only", "C10-empty-reference-keeps-base-query"],
+       kf=["C10-authority-compared-by-host-only", "C10-empty-reference-keeps-base-query", "C10-hostless-rootedness-differs", "C10-domainroot-makes-rootless-source-absolute", "C10-empty-source-path"],
        timeout_s=by_tier(1500, 7200), mem_gb=by_tier(10, 24))
+
+# ----------------------------------------------------------------------------------------------------------------
+# C16  percent-escaping: unbounded safety/shape obligations by loop contracts (route N)
+for ch in ("A", "W"):
+    ob(id="EscapeEx.%s.N" % ch, props=["C16", "C19", "C20"], route="N", harness="c16_escape_n.c", entry="h_escape", char=ch,
+       group="uriEscapeEx: bounds (exact 3n+1/6n+1 buffer), terminator, charset and complete upper-case triplets, all lengths, both flags, both end modes",
+       loops=["UriEscape.loops"], loops_only=["EscapeEx"], level="P", bounds="input length symbolic up to 100000 characters (size of the CBMC object, not an unwinding bound)",
+       functions=["uriEscapeEx" + ch], inlined=["uriHexToLetter" + ch, "uriHexToLetterEx" + ch], stubs=[],
+       require_classes={"loop.contract": 3}, timeout_s=by_tier(1500, 3600), mem_gb=20)
+    ob(id="EscapeEx.corner.%s.H" % ch, props=["C16", "C19"], route="H", harness="c16_escape_n.c", entry="h_escape_corner", char=ch,
+       group="uriEscapeEx NULL / aliasing corner cases", level="P", bounds="none (loop-free paths)",
+       functions=["uriEscapeEx" + ch], timeout_s=300, mem_gb=4)
+    ob(id="UnescapeInPlaceEx.%s.N" % ch, props=["C16", "C19", "C20"], route="N", harness="c16_escape_n.c", entry="h_unescape", char=ch,
+       group="uriUnescapeInPlaceEx: write <= read <= terminator, never lengthens, look-ahead stops at the terminator, returns the new terminator",
+       loops=["UriEscape.loops"], loops_only=["UnescapeInPlaceEx"], level="P", bounds="string length symbolic up to 100000 characters",
+       functions=["uriUnescapeInPlaceEx" + ch], inlined=["uriHexdigToInt" + ch], stubs=[],
+       require_classes={"loop.contract": 3}, timeout_s=by_tier(1500, 3600), mem_gb=20)
